@@ -272,7 +272,7 @@ def run_impl(cases):
     return "F"
 
 
-def run_model(cases, variant="repo"):
+def run_model(cases, variant=os.environ.get("VERIF_FRONT_VARIANT", "repo")):
     cs = [c for c in cases if c.ast is not None]
     groups = [[f"front build {variant} {c.ast}", f"front class {variant} {c.ast}"] for c in cs]
     answers = common.run_model(groups, tag="c09model")
@@ -410,7 +410,7 @@ EXPLAINS = {
                       "panic:reachIndex"},
     "dupTerminal": {"consistency", "terminals", "resolve", "inline", "panic:reachIndex", "start", "helper-shape"},
     "ruleIsTerminal": {"resolve", "start", "layout", "helper-shape"},
-    "reservedRule": {"alternatives", "start", "consistency", "resolve"},
+    "reservedRule": {"alternatives", "start", "layout", "consistency", "resolve"},
     "text:bool-false": {"spurious-diagnostic"},
 }
 
